@@ -1,6 +1,6 @@
 (* C02 — property theorems.  Only statements, `exact`, and Print Assumptions. *)
 From Sdns Require Import Common.Base Gen.C02 C02.Model C02.Spec
-  C02.ModelNsec3 C02.Proofs_Order C02.Proofs_Nsec C02.Proofs_Spec C02.Proofs_NsecTop C02.Proofs_Nsec3.
+  C02.ModelNsec3 C02.Proofs_Order C02.Proofs_Nsec C02.Proofs_Spec C02.Proofs_NsecTop C02.Proofs_Nsec3 C02.ModelCut C02.Proofs_Cut.
 Open Scope N_scope.
 
 (* ---- canonical order (RFC 4034 §6.1) is a total order *)
@@ -202,3 +202,34 @@ Theorem nsec3_delegation_sound :
     forall tys, In (d, tys) (z_nodes z) -> In T_NS tys /\ ~ In T_DS tys /\ ~ In T_SOA tys.
 Proof. exact nsec3_delegation_sound_pk. Qed.
 Print Assumptions nsec3_delegation_sound.
+
+(* ---- subtree-cut cache *)
+(* what Store.RecordNXDomainCut accepts: NXDOMAIN, CD=0, a proper descendant of the signer zone, no
+   in-zone Opt-Out NSEC3, SOA of the question's class, every retained RRset signed by the zone;
+   lifetime = at most the configured maximum, every TTL bound of the proof and the delegation cut *)
+Theorem cut_record_admits_only_complete_proofs :
+  forall maxttl now st m denied zone cu st',
+  cut_record maxttl now st m denied zone cu = Some st' ->
+  cm_rcode m = 3%N /\ cm_cd m = false /\ denied <> zone /\ is_prefix zone denied /\
+  existsb (fun p => f_nsec3 p && f_owner_in_zone p && f_optout p) (cm_proofs m) = false /\
+  exists sclass sttl smin ssig bounds ttl,
+    cm_soa m = Some (sclass, sttl, smin, ssig) /\ cm_qclass m = sclass /\ sig_counts sclass ssig = true /\
+    cut_proof m = Some bounds /\
+    (0 < ttl)%Z /\ (ttl <= maxttl)%Z /\ (forall b, In b bounds -> (ttl <= b)%Z) /\
+    (forall c, cu = Some c -> (ttl <= c - now)%Z) /\
+    st' = filter (fun e => negb (cut_key_eqb e denied sclass)) st ++ [(denied, sclass, (now + ttl)%Z)].
+Proof. exact cut_record_sound. Qed.
+Print Assumptions cut_record_admits_only_complete_proofs.
+
+(* cut_cache_sound: for every history of admissions and expiries, a lookup returns a cut only from an
+   accepted, unexpired record for an ancestor-or-self of the question in the same class, never for CD=1.
+   (ECS trees never reach record: the admission guard in cache.ResponseWriter.WriteMsg is outside the
+   model; entry/byte-limit eviction only removes entries.) *)
+Theorem cut_cache_sound :
+  forall maxttl ops now st log q qclass cd d,
+  cut_exec maxttl 0 [] [] ops = (now, st, log) ->
+  cut_lookup now st q qclass cd = Some d ->
+  cd = false /\ is_prefix d q /\ d <> [] /\
+  exists exp, In (d, qclass, exp) log /\ (now < exp)%Z /\ created maxttl (d, qclass, exp).
+Proof. exact Proofs_Cut.cut_cache_sound. Qed.
+Print Assumptions cut_cache_sound.
